@@ -743,3 +743,419 @@ def _imh_check(case):
         classes.append("uniform_zero_or_max")
     distinct = len({tuple(r) for r in used}) > 1
     return Info(nontrivial=distinct and _nonconstant(case["f"]), classes=classes)
+
+
+# ------------------------------------------------------------------ F. relaxed distributions: identities
+
+
+def _uniform_k():
+    return st.one_of(st.sampled_from([0, 1, TWO24 // 2, TWO24 - 1]), st.integers(0, TWO24 - 1))
+
+
+def _relaxed_dist_strategy(tier):
+    @st.composite
+    def build(draw):
+        which = draw(st.sampled_from(["bernoulli", "categorical"]))
+        B = draw(st.integers(1, 3))
+        dtype = draw(st.sampled_from(["float32", "float64"]))
+        param = draw(st.sampled_from(["logits", "probs"]))
+        if which == "bernoulli":
+            if param == "logits":
+                params = draw(st.lists(st.one_of(dyadic(4, -3, 3), st.sampled_from([-8.0, 8.0, 0.0])), min_size=B, max_size=B))
+            else:
+                params = draw(st.lists(st.one_of(dyadic(64, 1 / 64, 63 / 64), st.sampled_from([2.0 ** -10, 1 - 2.0 ** -10])), min_size=B, max_size=B))
+            n = B
+            V = 1
+        else:
+            V = draw(st.integers(2, 4))
+            if param == "logits":
+                params = draw(st.lists(st.lists(dyadic(4, -3, 3), min_size=V, max_size=V), min_size=B, max_size=B))
+            else:
+                params = draw(st.lists(st.lists(st.integers(1, 16), min_size=V, max_size=V), min_size=B, max_size=B))
+            n = B * V
+        return {"which": which, "B": B, "V": V, "dtype": dtype, "param": param, "params": params,
+                "mc": draw(st.integers(1, 4)),
+                "u": draw(st.lists(_uniform_k(), min_size=1, max_size=4 * n)),
+                "v": draw(st.lists(_uniform_k(), min_size=1, max_size=4 * n)),
+                "validate": draw(st.booleans())}
+
+    return build()
+
+
+def _relaxed_dist(case):
+    import torch
+    from pydrobert.torch.distributions import GumbelOneHotCategorical, LogisticBernoulli
+
+    dt = _dt(case)
+    t = torch.tensor(case["params"], dtype=dt)
+    kw = {"validate_args": case.get("validate", False)}
+    if case["which"] == "bernoulli":
+        d = LogisticBernoulli(**{case["param"]: t}, **kw)
+        probs = [ex.sigmoid(x) for x in case["params"]] if case["param"] == "logits" else list(case["params"])
+    else:
+        d = GumbelOneHotCategorical(**{case["param"]: t}, **kw)
+        if case["param"] == "logits":
+            probs = [ex.softmax(r) for r in case["params"]]
+        else:
+            probs = [[x / sum(r) for x in r] for r in case["params"]]
+    return d, probs
+
+
+@subcheck("C19", "relaxed_identities", _relaxed_dist_strategy, 800, 20000,
+          doc="LogisticBernoulli / GumbelOneHotCategorical, all parameterisations, uniforms scripted as k/2^24 incl. 0 and 1-2^-24: threshold(csample(b)) == b for every b; log_prob(z) == tlog_prob(H(z)) + clog_prob(z, H(z)); clog_prob(z, b) == -inf iff H(z) != b; tlog_prob == exact log P(b); samples lie in the (thresholded) support",
+          required_classes=["bernoulli", "categorical", "boundary_uniform", "float32", "float64"])
+def _relaxed_dist_check(case):
+    import torch
+
+    d, probs = _relaxed_dist(case)
+    dt = _dt(case)
+    B, V, mc = case["B"], case["V"], case["mc"]
+    bern = case["which"] == "bernoulli"
+    f32 = case["dtype"] == "float32"
+    with fakes.scripted_uniform([k / TWO24 for k in case["u"]]):
+        z = d.rsample([mc])
+    want = (mc, B) if bern else (mc, B, V)
+    require(tuple(z.shape) == want, "rsample shape", list(z.shape), list(want))
+    require(bool(torch.isfinite(z).all()), "relaxed sample not finite", z.tolist(), None)
+    require(bool(d.support.check(z).all()), "relaxed sample outside the distribution's support", z.tolist(), None)
+    b = d.threshold(z)
+    require(bool(d.thresholded_support.check(b).all()) if not bern else bool(((b == 0) | (b == 1)).all()),
+            "thresholded sample outside the thresholded support", b.tolist(), None)
+    # all discrete values
+    if bern:
+        all_b = [torch.full((mc, B), float(x), dtype=dt) for x in (0, 1)]
+    else:
+        all_b = [torch.eye(V, dtype=dt)[k].expand(mc, B, V).contiguous() for k in range(V)]
+    # tlog_prob against exact probabilities
+    for bi, bb in enumerate(all_b):
+        lp = d.tlog_prob(bb)
+        require(tuple(lp.shape) == (mc, B), "tlog_prob shape", list(lp.shape), [mc, B])
+        for n in range(B):
+            p = (probs[n] if bi else 1 - probs[n]) if bern else probs[n][bi]
+            e = math.log(p)
+            require(abs(float(lp[0, n]) - e) <= (2e-5 if f32 else 1e-9) * (1 + abs(e)), "tlog_prob != log P(b)", float(lp[0, n]), e)
+    # conditional samples threshold back to the conditioning value
+    zconds = []
+    for bb in all_b:
+        with fakes.scripted_uniform([k / TWO24 for k in case["v"]]):
+            zc = d.csample(bb)
+        require(tuple(zc.shape) == tuple(bb.shape), "csample shape", list(zc.shape), list(bb.shape))
+        require(bool(torch.isfinite(zc).all()), "conditional relaxed sample not finite", zc.tolist(), None)
+        back = d.threshold(zc)
+        require(torch.equal(back, bb), "threshold(csample(b)) != b", back.tolist(), bb.tolist())
+        zconds.append(zc)
+    # factorisation of the relaxed density, on the unconditional and the conditional samples
+    tol = 1e-4 if f32 else 1e-9
+    for zz in [z] + zconds:
+        hb = d.threshold(zz)
+        lhs = d.log_prob(zz)
+        rhs = d.tlog_prob(hb) + d.clog_prob(zz, hb)
+        require(tuple(lhs.shape) == (mc, B) and tuple(rhs.shape) == (mc, B), "log-probability shapes", [list(lhs.shape), list(rhs.shape)], [mc, B])
+        mag = 1 + lhs.abs().max().item() + zz.abs().max().item()
+        if not bern:
+            # log_prob sums exp(logits - z) over categories: the float error scales with those terms
+            mag += float((d.logits - zz).exp().max())
+        err = (lhs - rhs).abs().max().item()
+        require(err <= tol * mag, "log_prob(z) != tlog_prob(H(z)) + clog_prob(z, H(z))", lhs.tolist(), rhs.tolist())
+        for bb in all_b:
+            cl = d.clog_prob(zz, bb)
+            same = (hb == bb) if bern else (hb == bb).all(-1)
+            isinf = cl == float("-inf")
+            require(bool((isinf == ~same).all()), "clog_prob(z, b) must be -inf exactly where H(z) != b",
+                    cl.tolist(), same.tolist())
+    classes = [case["which"], case["dtype"], "param_" + case["param"]]
+    if any(k in (0, 1, TWO24 - 1) for k in case["u"] + case["v"]):
+        classes.append("boundary_uniform")
+    if case["validate"]:
+        classes.append("validate_args")
+    return Info(nontrivial=True, classes=classes)
+
+
+# ------------------------------------------------------------------ G. relaxed distributions: push-forward densities
+
+
+def _pushforward_strategy(tier):
+    @st.composite
+    def build(draw):
+        which = draw(st.sampled_from(["bernoulli", "categorical"]))
+        V = 1 if which == "bernoulli" else draw(st.integers(2, 4))
+        if which == "bernoulli":
+            params = [draw(dyadic(4, -3, 3))]
+        else:
+            params = [draw(st.lists(dyadic(4, -3, 3), min_size=V, max_size=V))]
+        return {"which": which, "B": 1, "V": V, "dtype": "float64", "param": "logits", "params": params,
+                "u": draw(st.lists(st.integers(2, 62), min_size=V, max_size=V)),
+                "v": draw(st.lists(st.integers(2, 62), min_size=V, max_size=V)),
+                "k": draw(st.integers(0, V - 1)) if which == "categorical" else draw(st.integers(0, 1))}
+
+    return build()
+
+
+@subcheck("C19", "relaxed_pushforward", _pushforward_strategy, 400, 8000,
+          doc="change of variables, float64, uniforms j/64 in the interior: the density of rsample's map u -> z (1/|det dz/du|, by autograd through the library's own sampler) equals exp(log_prob(z)); the density of csample's map v -> z~ equals exp(clog_prob(z~, b)) - i.e. the samplers draw from the densities that the factorisation speaks about (this is what makes RELAX exact in the mean for categoricals too)",
+          required_classes=["bernoulli", "categorical"])
+def _pushforward_check(case):
+    import torch
+
+    d, _ = _relaxed_dist(case)
+    V = case["V"]
+    bern = case["which"] == "bernoulli"
+    shape = (1,) if bern else (1, V)
+    u0 = torch.tensor([j / 64 for j in case["u"]], dtype=torch.float64).view(shape)
+    v0 = torch.tensor([j / 64 for j in case["v"]], dtype=torch.float64).view(shape)
+
+    def via(fn, x0):
+        def f(x):
+            def take(*a, **k):
+                return x.view(shape)
+
+            with fakes.patched(torch, rand=take, rand_like=take):
+                return fn().reshape(-1)
+
+        J = torch.autograd.functional.jacobian(f, x0.reshape(-1))
+        return f(x0.reshape(-1)).detach(), J
+
+    z, J = via(lambda: d.rsample(), u0)
+    logdens = -torch.linalg.slogdet(J.view(V, V))[1]
+    lp = d.log_prob(z.view(shape)).reshape(-1)[0]
+    require(abs(float(logdens) - float(lp)) <= 1e-8 * (1 + abs(float(lp))),
+            "density of rsample's output (change of variables) != exp(log_prob)", float(logdens), float(lp))
+    if bern:
+        b = torch.full(shape, float(case["k"]), dtype=torch.float64)
+    else:
+        b = torch.eye(V, dtype=torch.float64)[case["k"]].view(shape)
+    zc, Jc = via(lambda: d.csample(b), v0)
+    logdens = -torch.linalg.slogdet(Jc.view(V, V))[1]
+    cl = d.clog_prob(zc.view(shape), b).reshape(-1)[0]
+    require(abs(float(logdens) - float(cl)) <= 1e-8 * (1 + abs(float(cl))),
+            "density of csample's output (change of variables) != exp(clog_prob)", float(logdens), float(cl))
+    return Info(nontrivial=True, classes=[case["which"], "V_%d" % V])
+
+
+# ------------------------------------------------------------------ H/I. fixed-cardinality sampling
+
+
+def _srswor_enum(tier):
+    seeds = 6 if tier == "quick" else 200
+    out = []
+    for total in range(0, 9):
+        for given in range(0, total + 1):
+            for extra in (None, 0, 1, 3):
+                for s in range(seeds):
+                    out.append({"total": total, "given": given, "out_extra": extra, "seed": 1000 * s + 17 * total + given,
+                                "route": "dist" if (s + total) % 2 else "functional"})
+    return out
+
+
+def _srswor_one(total, given, out_size, seed, route, sample_shape=()):
+    import torch
+    from pydrobert.torch.distributions import SimpleRandomSamplingWithoutReplacement as SRS
+    from pydrobert.torch.functional import simple_random_sampling_without_replacement as srs
+
+    torch.manual_seed(seed)
+    tt, gg = torch.as_tensor(total), torch.as_tensor(given)
+    if route == "functional":
+        if sample_shape:
+            tt, gg = tt.expand(tuple(sample_shape) + tt.shape), gg.expand(tuple(sample_shape) + gg.shape)
+        return srs(tt, gg, out_size), None
+    d = SRS(gg if gg.dim() else given, tt if tt.dim() else total, out_size)
+    return d.sample(list(sample_shape)), d
+
+
+def _srswor_laws(b, totals, givens, out_size, what):
+    """b: (..., out_size) flattened against lists of totals / givens."""
+    rows = b.reshape(-1, b.shape[-1]).tolist() if b.shape[-1] else [[] for _ in range(max(1, b.numel()))]
+    require(b.shape[-1] == out_size, what + ": vector size", b.shape[-1], out_size)
+    for i, row in enumerate(rows):
+        T, L = totals[i % len(totals)], givens[i % len(givens)]
+        require(all(x in (0.0, 1.0) for x in row), what + ": sample is not binary", row, None)
+        require(sum(row) == L, what + ": number of ones != given_count (total=%d)" % T, row, L)
+        require(sum(row[T:]) == 0, what + ": a one lies at or beyond position total_count=%d" % T, row, None)
+
+
+@subcheck("C19", "srswor_enum", _srswor_enum, 0, 0, exhaustive=True,
+          doc="every total 0..8, given <= total, out_size in {default, total, total+1, total+3}, 6 (quick) / 200 (thorough) seeds, distribution and functional form: exactly `given` ones, all before position `total`; sample satisfies support.check; exp(log_prob) summed over enumerate_support() == 1 and the support is the set of all C(total, given) vectors",
+          required_classes=["given_0", "given_eq_total", "padded", "total_0"])
+def _srswor_check(case):
+    import torch
+
+    T, L = case["total"], case["given"]
+    out_size = None if case["out_extra"] is None else T + case["out_extra"]
+    eff = T if out_size is None else out_size
+    b, d = _srswor_one(T, L, out_size, case["seed"], case["route"], sample_shape=(3,))
+    require(tuple(b.shape) == (3, eff), "sample shape", list(b.shape), [3, eff])
+    _srswor_laws(b, [T], [L], eff, "SRSWOR")
+    classes = []
+    if d is not None:
+        require(bool(d.support.check(b).all()), "sample fails the distribution's own support check", b.tolist(), None)
+        require(bool(d.has_enumerate_support), "scalar counts must be enumerable", False, True)
+        sup = d.enumerate_support()
+        n = math.comb(T, L)
+        require(tuple(sup.shape) == (n, eff), "enumerate_support shape", list(sup.shape), [n, eff])
+        rows = {tuple(int(x) for x in r) for r in sup.tolist()}
+        expect = {tuple(1 if i in c else 0 for i in range(eff)) for c in itertools.combinations(range(T), L)}
+        require(rows == expect, "enumerate_support is not the set of all vectors with the given cardinality", sorted(rows), sorted(expect))
+        require(bool(d.support.check(sup).all()), "enumerated vector fails the support check", None, None)
+        mass = float(d.log_prob(sup).double().exp().sum())
+        require(abs(mass - 1.0) <= 1e-5, "probabilities over the enumerated support do not sum to one (total=%d, given=%d)" % (T, L), mass, 1.0)
+        classes.append("dist")
+    if L == 0:
+        classes.append("given_0")
+    if L == T:
+        classes.append("given_eq_total")
+    if T == 0:
+        classes.append("total_0")
+    if eff > T:
+        classes.append("padded")
+    return Info(nontrivial=0 < L < T, classes=classes)
+
+
+def _srswor_batch_strategy(tier):
+    @st.composite
+    def build(draw):
+        B = draw(st.integers(1, 4))
+        totals = draw(st.lists(st.integers(0, 8), min_size=B, max_size=B))
+        givens = [draw(st.integers(0, t)) for t in totals]
+        shape = draw(st.sampled_from(["vector", "vector", "total_scalar", "given_scalar", "matrix"]))
+        if shape == "total_scalar":
+            totals = [max(totals)] * B
+        if shape == "given_scalar":
+            givens = [min(g for g in givens)] * B
+        return {"totals": totals, "givens": givens, "shape": shape,
+                "out_extra": draw(st.sampled_from([None, 0, 1, 2])), "seed": draw(st.integers(0, 2 ** 31 - 1)),
+                "route": draw(st.sampled_from(["dist", "functional"])), "ns": draw(st.integers(1, 3))}
+
+    return build()
+
+
+@subcheck("C19", "srswor_batch", _srswor_batch_strategy, 500, 10000,
+          doc="batched / broadcast total and given counts (vector, scalar-vs-vector, 2-D), generated seeds: every row has exactly its given count of ones inside its first total positions; support check; mass over the enumerated support == 1 when enumerable",
+          required_classes=["mixed_totals", "broadcast"])
+def _srswor_batch_check(case):
+    import torch
+
+    totals, givens, B = case["totals"], case["givens"], len(case["totals"])
+    tmax = max(totals)
+    out_size = None if case["out_extra"] is None else tmax + case["out_extra"]
+    eff = tmax if out_size is None else out_size
+    tt, gg = torch.tensor(totals), torch.tensor(givens)
+    classes = []
+    if case["shape"] == "total_scalar":
+        tt = torch.tensor(totals[0])
+        classes.append("broadcast")
+    elif case["shape"] == "given_scalar":
+        gg = torch.tensor(givens[0])
+        classes.append("broadcast")
+    elif case["shape"] == "matrix":
+        tt, gg = tt.view(1, B), gg.view(1, B)
+    b, d = _srswor_one(tt, gg, out_size, case["seed"], case["route"], sample_shape=(case["ns"],))
+    lead = (case["ns"],) + ((1, B) if case["shape"] == "matrix" else (B,))
+    require(tuple(b.shape) == lead + (eff,), "sample shape", list(b.shape), list(lead + (eff,)))
+    _srswor_laws(b, totals, givens, eff, "SRSWOR (batched)")
+    if d is not None:
+        require(bool(d.support.check(b).all()), "sample fails the distribution's own support check", b.tolist(), None)
+        if d.has_enumerate_support:
+            sup = d.enumerate_support()
+            lp = d.log_prob(sup).double().exp()
+            mass = lp.reshape(lp.shape[0], -1).sum(0)
+            require(bool(((mass - 1).abs() <= 1e-5).all()), "probabilities over the enumerated support do not sum to one", mass.tolist(), 1.0)
+            classes.append("enumerable")
+    if len(set(totals)) > 1:
+        classes.append("mixed_totals")
+    return Info(nontrivial=any(0 < g < t for g, t in zip(givens, totals)), classes=classes)
+
+
+# ------------------------------------------------------------------ J. combinatorics
+
+
+def _comb_enum(tier):
+    out = [{"what": "binom_row", "length": n} for n in range(0, 67)]
+    out += [{"what": "vocab", "length": n, "vocab": v} for n in range(0, 5) for v in range(1, 5)]
+    out += [{"what": "binary", "length": n} for n in range(0, 9 if tier == "quick" else 11)]
+    out += [{"what": "card_int", "length": n, "count": c} for n in range(0, 8) for c in range(0, n + 2)]
+    return out
+
+
+@subcheck("C19", "combinatorics_enum", _comb_enum, 0, 0, exhaustive=True,
+          doc="binomial_coefficient == math.comb for every length 0..66 and count 0..length+1; enumerate_vocab_sequences / enumerate_binary_sequences / ..._with_cardinality (int form) == itertools, including the documented prefix ordering",
+          required_classes=["binom_recursion_branch", "binom_factorial_branch"])
+def _comb_check(case):
+    import torch
+    from pydrobert.torch import functional as F
+
+    w = case["what"]
+    n = case["length"]
+    if w == "binom_row":
+        counts = list(range(0, n + 2))
+        got = F.binomial_coefficient(torch.tensor([n] * len(counts)), torch.tensor(counts))
+        exp = [math.comb(n, c) for c in counts]
+        require(got.tolist() == exp, "binomial_coefficient(%d, 0..%d) != math.comb" % (n, n + 1), got.tolist(), exp)
+        got1 = F.binomial_coefficient(torch.tensor(n), torch.tensor(n // 2))
+        require(int(got1) == math.comb(n, n // 2), "binomial_coefficient scalar form", int(got1), math.comb(n, n // 2))
+        return Info(nontrivial=n >= 2, classes=["binom_recursion_branch" if n > 20 else "binom_factorial_branch"])
+    if w in ("vocab", "binary"):
+        V = case.get("vocab", 2)
+        got = F.enumerate_vocab_sequences(n, V) if w == "vocab" else F.enumerate_binary_sequences(n)
+        require(tuple(got.shape) == (V ** n, n), "enumeration shape", list(got.shape), [V ** n, n])
+        rows = [tuple(r) for r in got.tolist()]
+        # documented order: position 0 varies fastest (all sequences of length n-x are support[:V**(n-x), :n-x])
+        exp = [tuple(reversed(t)) for t in itertools.product(range(V), repeat=n)]
+        require(rows == exp, "enumeration differs from itertools.product in the documented order", rows[:10], exp[:10])
+        return Info(nontrivial=n >= 2 and V >= 2, classes=[w])
+    c = case["count"]
+    got = F.enumerate_binary_sequences_with_cardinality(n, c)
+    exp = {tuple(1 if i in cc else 0 for i in range(n)) for cc in itertools.combinations(range(n), c)}
+    rows = [tuple(r) for r in got.tolist()]
+    require(len(rows) == len(set(rows)) == len(exp) and set(rows) == exp,
+            "enumerate_binary_sequences_with_cardinality(%d, %d) is not the set of combinations" % (n, c), rows, sorted(exp))
+    return Info(nontrivial=0 < c < n, classes=["card_int"])
+
+
+def _comb_strategy(tier):
+    @st.composite
+    def build(draw):
+        B = draw(st.integers(1, 5))
+        big = draw(st.booleans())
+        lengths = draw(st.lists(st.integers(0, 66 if big else 20), min_size=B, max_size=B))
+        counts = [draw(st.one_of(st.integers(0, x), st.integers(0, x + 2))) for x in lengths]
+        small = draw(st.lists(st.integers(0, 6), min_size=B, max_size=B))
+        scount = [draw(st.integers(0, x)) for x in small]
+        return {"lengths": lengths, "counts": counts, "small": small, "scount": scount,
+                "broadcast": draw(st.sampled_from(["none", "length_scalar", "count_scalar"]))}
+
+    return build()
+
+
+@subcheck("C19", "combinatorics_mixed", _comb_strategy, 400, 8000,
+          doc="binomial_coefficient on generated vectors of mixed lengths <= 66 (both internal branches, count possibly > length, scalar broadcasting) == math.comb; tensor form of enumerate_binary_sequences_with_cardinality: binom == math.comb and support[b, :binom[b], :length[b]] is the set of combinations",
+          required_classes=["max_length_gt_20", "max_length_le_20", "count_gt_length"])
+def _comb_mixed_check(case):
+    import torch
+    from pydrobert.torch import functional as F
+
+    ln, ct = list(case["lengths"]), list(case["counts"])
+    if case["broadcast"] == "length_scalar":
+        ln = [ln[0]] * len(ln)
+        L, C = torch.tensor(ln[0]), torch.tensor(ct)
+    elif case["broadcast"] == "count_scalar":
+        ct = [ct[0]] * len(ct)
+        L, C = torch.tensor(ln), torch.tensor(ct[0])
+    else:
+        L, C = torch.tensor(ln), torch.tensor(ct)
+    got = F.binomial_coefficient(L, C)
+    exp = [math.comb(a, b) for a, b in zip(ln, ct)]
+    require(got.reshape(-1).tolist() == exp, "binomial_coefficient != math.comb", got.tolist(), exp)
+    sm, sc = case["small"], case["scount"]
+    sup, binom = F.enumerate_binary_sequences_with_cardinality(torch.tensor(sm), torch.tensor(sc))
+    expb = [math.comb(a, b) for a, b in zip(sm, sc)]
+    require(binom.tolist() == expb, "tensor form: binom != math.comb", binom.tolist(), expb)
+    require(tuple(sup.shape) == (len(sm), max(expb), max(sm)), "tensor form: support shape", list(sup.shape), [len(sm), max(expb), max(sm)])
+    for i, (a, b) in enumerate(zip(sm, sc)):
+        rows = [tuple(int(x) for x in r[:a]) for r in sup[i, :expb[i]].tolist()]
+        expect = {tuple(1 if j in cc else 0 for j in range(a)) for cc in itertools.combinations(range(a), b)}
+        require(len(rows) == len(set(rows)) and set(rows) == expect,
+                "tensor form: support[%d, :binom, :length] is not the set of combinations (length=%d, count=%d)" % (i, a, b), rows, sorted(expect))
+    classes = ["max_length_gt_20" if max(ln) > 20 else "max_length_le_20"]
+    if any(b > a for a, b in zip(ln, ct)):
+        classes.append("count_gt_length")
+    return Info(nontrivial=max(ln) >= 2, classes=classes)
